@@ -5,5 +5,5 @@ Require Extraction.
 Require Import ExtrOcamlBasic ExtrOcamlString.
 Extraction Language OCaml.
 Extraction "../ocaml/c02/model.ml" hm_new hm_step hm_run hm_into_handlers hm_words hm_r2s
-  hm_orphans hm_handlers used sm_check sm_applicable
+  hm_orphans hm_handlers melements used sm_check sm_applicable
   Z.of_N. (* Z.of_N only so that the shared conv.ml finds the type z *)
